@@ -318,3 +318,179 @@ func optimizerAbsorbedRemoved(c *Ctx, g *load.G) (bool, string) {
 	}
 	return len(bad) == 0, strings.Join(uniq(bad), "; ")
 }
+
+// substObjects replaces, along a path, a numbered local that was defined by a type assertion of a container element
+// (a pointer to that node) by the asserted expression, so that operands read the same whether or not the code names them.
+func substObjects(p bpath) bpath {
+	return substAliases(p, func(v string) bool {
+		return assertRe.MatchString(v) && strings.HasSuffix(v, ")") && !strings.HasPrefix(v, "ok(")
+	})
+}
+
+// substAliases replaces a numbered local by the expression it was set to, where isRef says that the expression
+// denotes a reference (pointer-valued element, asserted pointer): stores through the local are stores through the
+// expression.
+func substAliases(p bpath, isRef func(v string) bool) bpath {
+	env := map[string]string{}
+	out := make(bpath, 0, len(p))
+	for _, e := range p {
+		ne := e
+		if e.Kind == "set" {
+			if i := strings.Index(e.Text, "="); i > 0 && dollarRe.FindString(e.Text[:i]) == e.Text[:i] {
+				name, v := e.Text[:i], e.Text[i+1:]
+				if isRef(v) {
+					env[name] = v
+				} else {
+					delete(env, name)
+				}
+				out = append(out, ne)
+				continue
+			}
+		}
+		if len(env) > 0 && strings.Contains(e.Text, "$") {
+			ne.Text = dollarRe.ReplaceAllStringFunc(e.Text, func(m string) string {
+				if v, ok := env[m]; ok {
+					return v
+				}
+				return m
+			})
+			if e.Kind == "+" {
+				ne.Text = canonText(ne.Text, false)
+			}
+		}
+		out = append(out, ne)
+	}
+	return out
+}
+
+// optimizerMergeCases (C09-b guards, C09-f effects): the four rewrites that merge two adjacent alternatives into one
+// character class, decided on the normalised paths of the choice case. P is the element at index i-1, Q the one at i.
+func optimizerMergeCases(c *Ctx, g *load.G) {
+	r := c.R
+	ap := g.Pkg("ast")
+	fd := load.FuncDecl(ap, "grammarOptimizer", "optimize")
+	if fd == nil {
+		return
+	}
+	si := typeSwitchOn(fd, firstParam(fd))
+	cc := si.Cases["ChoiceExpr"]
+	if cc == nil {
+		r.Unk("C09-b", "G.ast.optimize:merge-cases", "", g.Where(fd.Pos()), "no *ChoiceExpr case")
+		return
+	}
+	x := firstParam(fd)
+	A := x + ".Alternatives"
+	P, Q := A+"[#1-1]", A+"[#1]"
+	lit := func(e string) string { return e + ".(*LitMatcher)" }
+	cls := func(e string) string { return e + ".(*CharClassMatcher)" }
+	type mcase struct {
+		name    string
+		kinds   []string // facts selecting the case
+		guards  []string
+		effects []string // stores that must happen (prefix match on the event text)
+	}
+	l0, l1, c0, c1 := lit(P), lit(Q), cls(P), cls(Q)
+	cases := []mcase{
+		{"lit,lit", []string{"ok(" + l0 + ")", "ok(" + l1 + ")"},
+			[]string{"len([]rune(" + l0 + ".Val))==1", "len([]rune(" + l1 + ".Val))==1", l0 + ".IgnoreCase==" + l1 + ".IgnoreCase"},
+			[]string{"=CharClassMatcher{Chars:append([]rune(" + l0 + ".Val),[]rune(" + l1 + ".Val)...),IgnoreCase:" + l0 + ".IgnoreCase,posValue:" + l0 + ".posValue}", P + "=&"}},
+		{"lit,class", []string{"ok(" + l0 + ")", "ok(" + c1 + ")"},
+			[]string{"len([]rune(" + l0 + ".Val))==1", l0 + ".IgnoreCase==" + c1 + ".IgnoreCase", "!" + c1 + ".Inverted"},
+			[]string{c1 + ".Chars=append(" + c1 + ".Chars,[]rune(" + l0 + ".Val)...)", P + "=" + c1}},
+		{"class,lit", []string{"ok(" + c0 + ")", "ok(" + l1 + ")"},
+			[]string{"len([]rune(" + l1 + ".Val))==1", c0 + ".IgnoreCase==" + l1 + ".IgnoreCase", "!" + c0 + ".Inverted"},
+			[]string{c0 + ".Chars=append(" + c0 + ".Chars,[]rune(" + l1 + ".Val)...)"}},
+		{"class,class", []string{"ok(" + c0 + ")", "ok(" + c1 + ")"},
+			[]string{c0 + ".IgnoreCase==" + c1 + ".IgnoreCase", "!" + c0 + ".Inverted", "!" + c1 + ".Inverted"},
+			[]string{c0 + ".Chars=append(" + c0 + ".Chars," + c1 + ".Chars...)", c0 + ".Ranges=append(" + c0 + ".Ranges," + c1 + ".Ranges...)", c0 + ".UnicodeClasses=append(" + c0 + ".UnicodeClasses," + c1 + ".UnicodeClasses...)"}},
+	}
+	paths := c.astNorm().normBlock(fd, cc.Body)
+	seen := map[string]int{}
+	bad := map[string][]string{}
+	for _, p0 := range paths {
+		p := substObjects(p0)
+		// a merge is applied on this path iff a class is built or extended
+		merged := false
+		for _, e := range p {
+			if e.Kind == "set" && (strings.Contains(e.Text, ".Chars=append(") || strings.Contains(e.Text, "=CharClassMatcher{")) {
+				merged = true
+			}
+		}
+		if !merged {
+			continue
+		}
+		matched := ""
+		for _, mc := range cases {
+			all := true
+			for _, k := range mc.kinds {
+				if !p.holds(k) {
+					all = false
+				}
+			}
+			if !all {
+				continue
+			}
+			// the effect of this very case?
+			eff := true
+			for _, ef := range mc.effects {
+				found := false
+				for _, e := range p {
+					if e.Kind == "set" && strings.Contains(e.Text, ef) {
+						found = true
+					}
+				}
+				if !found {
+					eff = false
+				}
+			}
+			if eff {
+				matched = mc.name
+				seen[mc.name]++
+				for _, gd := range mc.guards {
+					sym := gd
+					if i := strings.Index(gd, "=="); i > 0 && strings.Contains(gd, ".IgnoreCase==") {
+						sym = gd[i+2:] + "==" + gd[:i]
+					}
+					if !p.holds(gd) && !p.holds(sym) {
+						bad[mc.name] = append(bad[mc.name], "merged without `"+stripAsserts(gd)+"`")
+					}
+				}
+				break
+			}
+		}
+		if matched == "" {
+			bad["other"] = append(bad["other"], "a class is built or extended on a path that is none of the four merge cases with its complete effect (facts: "+abbreviate(stripAsserts(strings.Join(p.facts(), " ")))+")")
+		}
+	}
+	for _, mc := range cases {
+		construct := "G.ast.optimize:merge(" + mc.name + ")"
+		r.Check(seen[mc.name] > 0, "C09-f", construct+":effect", "", g.Where(cc.Pos()), fmt.Sprintf("%d paths move the members completely and leave the survivor at index i-1", seen[mc.name]), "no path performs this merge with its complete effect (all member lists moved, survivor stored at index i-1): members are lost when the second alternative is removed")
+		if seen[mc.name] == 0 {
+			continue
+		}
+		r.Check(len(bad[mc.name]) == 0, "C09-b", construct, "", g.Where(cc.Pos()), "single rune literals only, equal IgnoreCase, no inverted class", strings.Join(uniq(bad[mc.name]), "; ")+": [^a] / [^b] matches everything, [^ab] does not; \"ab\" / \"c\" is not [abc]")
+	}
+	r.Check(len(bad["other"]) == 0, "C09-b", "G.ast.optimize:merge-cases-closed", "", g.Where(cc.Pos()), "classes are built or extended only by the four guarded merges", strings.Join(uniq(bad["other"]), "; "))
+	// literal concatenation in sequences
+	if sc := si.Cases["SeqExpr"]; sc != nil {
+		E := x + ".Exprs"
+		s0, s1 := lit(E+"[#1-1]"), lit(E+"[#1]")
+		var badS []string
+		n := 0
+		for _, p0 := range c.astNorm().normBlock(fd, sc.Body) {
+			p := substObjects(p0)
+			for _, e := range p {
+				if e.Kind == "set" && strings.HasPrefix(e.Text, s0+".Val+=") {
+					n++
+					if e.Text != s0+".Val+="+s1+".Val" {
+						badS = append(badS, "the literal receives "+stripAsserts(e.Text))
+					}
+					if !(p.holds("ok("+s0+")") && p.holds("ok("+s1+")") && (p.holds(s0+".IgnoreCase=="+s1+".IgnoreCase") || p.holds(s1+".IgnoreCase=="+s0+".IgnoreCase"))) {
+						badS = append(badS, "literals are concatenated without both being literals of equal IgnoreCase")
+					}
+				}
+			}
+		}
+		r.Check(len(badS) == 0 && n > 0, "C09-b", "G.ast.optimize:literal-concatenation-guard", "", g.Where(sc.Pos()), "adjacent literals are concatenated only when both are literals with equal IgnoreCase", strings.Join(uniq(badS), "; "))
+	}
+}
